@@ -368,7 +368,7 @@ class Interp:
             if f is not None:
                 return f(l, r)
             raise AnalysisError(f"absint: `@` on {l!r}, {r!r}")
-        if isinstance(l, (Opaque, BV)) or isinstance(r, (Opaque, BV)):
+        if isinstance(l, (Opaque, BV)) or isinstance(r, (Opaque, BV)) or type(l).__module__.startswith("sa.") or type(r).__module__.startswith("sa."):
             f = self.prims.get("__binop__")
             if f is not None:
                 return f(type(op).__name__, l, r)
@@ -506,6 +506,8 @@ class Interp:
                 return base.slice(lo, hi)  # v[hi:lo] : python lower = hi, upper = lo
             if isinstance(base, (list, tuple, str, range)):
                 return base[slice(lo, hi, st)]
+            if type(base).__module__.startswith("sa.") and hasattr(type(base), "__getitem__"):
+                return base[slice(lo, hi, st)]  # model object (e.g. SFixed[left:right])
             raise AnalysisError(f"absint: slice of {base!r}")
         idx = self.ev(sl, env)
         if isinstance(base, BV):
